@@ -228,7 +228,8 @@ func genC14For(t *rapid.T, transport string) c14Case {
 // room than the model can only unblock more. The one thing the model takes from the
 // documentation rather than from a capacity: once the handler has returned, no client call
 // blocks (Send reports end-of-stream, Receive reports the terminal result, CloseSend "lets
-// the server know", which needs no one to listen).
+// the server know", which needs no one to listen). Over websockets the handler's result is
+// itself a message on the connection, so there the return waits for room like a send.
 //
 // The plan edits the client script only: where both sides (or the handler alone, the client
 // having finished) would wait forever, the client operation that releases the handler is
@@ -324,6 +325,11 @@ func c14Plan(c c14Case) []c14Op {
 				return false
 			}
 			if si >= len(c.Server) {
+				// Over websockets the terminal result is a message on the same connection
+				// and needs room like any other; until it is out the server reads nothing.
+				if c.Transport == "ws" && !res.fits(0, cWait) {
+					return false
+				}
 				returned = true
 				return true
 			}
@@ -369,7 +375,7 @@ func c14Plan(c c14Case) []c14Op {
 		}
 		// Every repair lets the handler get at least one operation further, so the loop ends.
 		release := c14Op{K: "close"} // a handler waiting in Receive is released by CloseSend
-		if si < len(c.Server) && c.Server[si].K == "send" {
+		if si >= len(c.Server) || c.Server[si].K == "send" {
 			release = c14Op{K: "recv"} // a handler waiting in Send by a receive
 			if ci >= len(client) {
 				release = c14Op{K: "drain"}
